@@ -39,6 +39,9 @@ pub const BAD: &[&str] = &[
     "This is wrong ,right after the comma.",
     // a lint that encloses other lints
     "He said teh teh thing again.",
+    // links, addresses and host names in running text
+    "Visit https://www.example.org/docs for teh details.",
+    "Write to someone@example.com or see www.example.net for an update.",
     // a lint whose span contains a line break
     "We walked to the\nthe park together.",
     "This sentence is very long because it keeps going on and on with more and more wrods that nobody needs to read at all and it still does not stop even though the reader has lost all intrest in it by now and wants it to end.",
